@@ -18,6 +18,7 @@ CONSTANTS Bases,     \* set of <<n, d>> base values for semi-axes
           Eps,       \* set of near-tie exponents e (0 = exact)
           Centres,   \* set of centres, each <<<<n,d>>,<<n,d>>,<<n,d>>>>
           Scales,    \* set of scale exponents sc
+          CentresE, ScalesE,  \* the same for ellipsoids (three axes multiply the state space)
           SeriesN    \* number of series terms for the ellipse perimeter
 
 VARIABLES cls, ax, ctr, sc
@@ -51,15 +52,15 @@ AxMax(S) == CHOOSE a \in S : \A b \in S : ~AxLt(a, b)
 NAx(c) == CASE c = "Circle" -> 1 [] c = "Sphere" -> 1 [] c = "Ellipse" -> 2 [] c = "Ellipsoid" -> 3
 Init == /\ cls \in {"Circle", "Ellipse", "Sphere", "Ellipsoid"}
         /\ ax \in [1..NAx(cls) -> {Axis(b, e) : b \in Bases, e \in Eps}]
-        /\ ctr \in Centres
-        /\ sc \in Scales
+        /\ ctr \in (IF cls = "Ellipsoid" THEN CentresE ELSE Centres)
+        /\ sc \in (IF cls = "Ellipsoid" THEN ScalesE ELSE Scales)
 \* relabelling the axes and rescaling are the transformations whose laws the harness checks on the code
 PermuteAxes == /\ NAx(cls) >= 2
                /\ \E p \in [1..NAx(cls) -> 1..NAx(cls)] :
                     /\ \A i, j \in 1..NAx(cls) : i # j => p[i] # p[j]
                     /\ ax' = [i \in 1..NAx(cls) |-> ax[p[i]]]
                /\ UNCHANGED <<cls, ctr, sc>>
-Rescale == \E s \in Scales : sc' = s /\ UNCHANGED <<cls, ax, ctr>>
+Rescale == \E s \in (IF cls = "Ellipsoid" THEN ScalesE ELSE Scales) : sc' = s /\ UNCHANGED <<cls, ax, ctr>>
 Next == PermuteAxes \/ Rescale
 Spec == Init /\ [][Next]_vars
 
